@@ -9,7 +9,7 @@ from ..wire import Sym, enc, lean_representable, request as rq
 
 ID = "C05"
 LEAN_MODULE = "BibVerif.Props.C05"
-RULE = ("grammar-derived documents (resolved and unresolved @string references, concatenations, numeric values, nested braces, "
+RULE = ("grammar-derived documents (resolved and unresolved @string references, chains of @string aliases, concatenations, numeric values, nested braces, "
         "multi-line values, comments between blocks, duplicate keys in a minority of documents) x BibtexFormat settings "
         "(indent in '', ' ', TAB, 4 spaces; value_column in 0..40 and 'auto'; trailing_comma; block_separator in '', NL, NLNL, ' NL'). "
         "Compared: the model of the whole default pipeline (splitter, Library.add, ResolveStringReferences, RemoveEnclosing, "
@@ -18,33 +18,44 @@ RULE = ("grammar-derived documents (resolved and unresolved @string references, 
 LEVEL_TEXT = ("Lean theorems (Props/C05.lean), for EVERY library / text, EVERY BibtexFormat whose indent is blanks/tabs and whose "
               "separator is blanks/tabs/newlines (any value_column incl. 'auto', any trailing_comma) and EVERY character table "
               "satisfying the per-character facts PrintOK: (1) written_text: the default write stack prints a writable library L "
-              "(entries, @strings, @preambles, explicit and free-text comments; values of any brace-nesting depth) as render(L); "
-              "(2) print_parse: parse_string of that text returns the same sequence of blocks with the same types, keys, field order, "
-              "values and comment/preamble/@string content; (3) reparsed_writable + fixpoint: that library is writable again and "
-              "write_string of it reproduces the text byte for byte; write_content_only; (4) parsed_writable: EVERY library "
-              "parse_string returns has stripped keys, pairwise distinct live keys and field keys, string values and no two adjacent "
-              "free-text comments (splitter + pipeline invariants), so if its blocks pass the content side conditions SideOK it is "
-              "writable; (5) content_preserved: for such a document the whole parse->write->parse->write round trip succeeds with "
-              "equal contents and equal texts. Proof: the written text is lexed block by block into a derivation of the dialect "
-              "grammar, C02's split_correct gives the blocks, Library.add is the identity on distinct keys, string resolution skips "
+              "(entries, @strings, @preambles, explicit and free-text comments; values of any brace-nesting depth, including "
+              "concatenation-shaped values whose content is not brace-balanced such as 'A} # {B' from {A} # {B}, 'a}{b', "
+              "'a} # \"b\" # {c') as render(L); (2) print_parse: parse_string of that text returns the same sequence of blocks "
+              "with the same types, keys, field order, values and comment/preamble/@string content; (3) reparsed_writable + "
+              "fixpoint: that library is writable again and write_string of it reproduces the text byte for byte; "
+              "write_content_only; (4) parsed_writable: EVERY library parse_string returns has stripped keys, pairwise distinct "
+              "live keys and field keys, string values and no two adjacent free-text comments (splitter + pipeline invariants), so "
+              "if its blocks pass the content side conditions SideOK it is writable; (5) content_preserved: for such a document the "
+              "whole parse->write->parse->write round trip succeeds with equal contents and equal texts. Proof: the written text is "
+              "lexed block by block into a derivation of the dialect grammar (a field value {v} is a Value, an @string value {v} a "
+              "Bal), C02's split_correct gives the blocks, Library.add is the identity on distinct keys, string resolution skips "
               "brace-enclosed values, RemoveEnclosing strips exactly the added pair. The models of the six modules are tied to "
               "/repo by differential execution of the full round trip on every run.")
 LEVEL_NOTE = ("Trusted: Lean kernel + 3 standard axioms; the hand-written models (Lex, Split, Interpolate incl. its Library.add fold, "
               "Enclosing, Writer, Pipeline); the correspondence run; the PrintOK facts about CPython's \\w / isspace / lower, each "
               "checked over all 1,114,112 code points on every run. SideOK (Lemmas/ParsedWritable.lean) is the content part of the "
-              "property's 'well-formed document' and slightly narrower than the oracle's wf5: no failed block; entry types are "
-              "\\w words fixed by lower(); entry/field/@string keys contain no delimiter, newline, '@' or backslash; every value, "
-              "preamble and explicit comment is TextOK (its own tokens are brace-balanced - hence no block-start sequence - and it "
-              "does not end in a backslash); free-text comments contain no '@'. Well-formed documents outside SideOK (a backslash "
-              "or a non-block-start '@' inside a key or free-text comment; a value such as {a}{b} whose content 'a}{b' is "
-              "unbalanced once its own enclosing is stripped) are exercised by the correspondence run and the oracle only.")
+              "property's 'well-formed document'; the oracle's wf5 evaluates the same conditions on the real code, slightly more "
+              "liberally: no failed block; entry types are \\w words fixed by lower(); entry/field/@string keys contain no "
+              "delimiter, newline, '@' or backslash (wf5 allows a backslash or a non-block-start '@' inside a key); an entry field "
+              "value v is ValueOK: the tokens of the ENCLOSED text {v} form a Value of the grammar (bare text, brace groups, quoted "
+              "pieces; no top-level comma / equals sign, no block start) and v does not end in a backslash - the content itself "
+              "need not be balanced; an @string value v is StrValOK: the tokens of {v} are brace-balanced, no trailing backslash; "
+              "preambles and explicit comments (written without added braces) are TextOK: their own tokens are brace-balanced, no "
+              "trailing backslash; free-text comments contain no block-start sequence @\\w*[ \\t]*{ (noStart; any other '@', "
+              "e.g. a mail address, is fine - wf5 additionally excludes a trailing backslash there, the theorems do not need "
+              "that). Documents outside SideOK but inside wf5 are exercised by the correspondence run and the oracle only.")
 TECHNIQUE = "Lean 4 proof + differential correspondence of the whole default pipeline"
 ASSUMPTIONS = ["PrintOK (per-character facts about \\w, str.isspace, str.lower; checked over all code points this run)",
                "FormatOK: indent consists of blanks/tabs, block_separator of blanks/tabs/newlines",
-               "Writable L resp. SideOK for the parsed library (see LEVEL_NOTE)"]
+               "Writable L resp. SideOK for the parsed library (see LEVEL_NOTE); EncVal / EncBal / CleanVal are the lexical "
+               "conditions on field values / @string values / preambles and comments"]
 PARTIAL = ["content_preserved_grammar_full (Props/C05.lean, kept as a def, not proved): the round-trip statement for every "
            "derivation of the dialect grammar satisfying WF5 (distinct keys, nothing ending in a backslash, \\w types). Proved is "
-           "the subclass whose parsed library passes SideOK (content_preserved); the difference is listed in LEVEL_NOTE."]
+           "the class whose PARSED library passes SideOK (content_preserved, parsed_writable). Still outside: (a) a backslash, an "
+           "escaped delimiter, a newline or a non-block-start '@' inside an entry / field / @string key; "
+           "(b) the step from the grammar derivation to SideOK of the parsed library (it needs the re-lexing of "
+           "stripped sub-texts of a canonical token list: that the content of a grammar Value, once one enclosing layer is "
+           "stripped and braces are put around it, lexes to a Value again) - stated on the parsed library instead."]
 EXHAUSTIVE = {"quick": False, "thorough": False}
 
 INDENTS = ["", " ", "\t", "    "]
@@ -78,6 +89,12 @@ def corpus():
         "@a{k, f = {}, g = \"\", h = }",
         "@İ{k, f = 1}",
     ]
+    texts += [
+        # chains of @string aliases: resolution goes one level, so the parsed value is itself a macro name
+        "@string{acm = \"ACM Press\"}\n@string{pub = acm}\n@a{k, publisher = pub, t = {x}}",
+        "@string{a = {x{y}z}}@string{b = a}@string{c = b}\n@a{k, f = c, g = b, h = a}",
+        "@a{k, f = b}\n@string{b = a}\n@string{a = 12}",
+    ]
     out = [dict(base, t=t) for t in texts]
     out.append({"t": texts[1], "indent": "    ", "col": "auto", "sep": " \n", "tc": True})
     out.append({"t": texts[2], "indent": "", "col": 17, "sep": "", "tc": True})
@@ -88,10 +105,35 @@ def corpus():
     out.append({"t": ex, "indent": "  ", "col": "auto", "sep": "\n \n", "tc": True})
     out.append({"t": ex, "indent": "", "col": 3, "sep": "", "tc": False})
     out.append({"t": "@a{,}\n@b{k,\n}\nx\n@string{s = {}}", "indent": "\t", "col": "auto", "sep": " \t\n", "tc": True})
+    # concatenation-shaped values whose content (one layer stripped) is not brace-balanced: EncVal / EncBal
+    cc = ('@string{j = {a} # {b}}\n@a{k, title = {A} # {B}, adj = {a}{b}, mix = {a} # "b" # {c}, q = "x{"}y" # {z}, r = {p} # j}\n'
+          '@string{jj = {a}{b}}')
+    out.append(dict(base, t=cc))
+    out.append({"t": cc, "indent": "  ", "col": "auto", "sep": "\n \n", "tc": True})
+    # free-text comments with '@' that is not a block start (noStart)
+    out.append(dict(base, t="% maintained by a@b.org, see @ home @x y\n@a{k, t = {v}}\nmail c@d.org @\n@string{s = {w}}\ntail @"))
     return out
 
 
+def _alias_doc(rng):
+    """@string aliases of aliases: after the (one-level) resolution a field holds a bare macro name"""
+    names = rng.sample(["acm", "pub", "p2", "jx", "S"], 4)
+    base = rng.choice(['"ACM Press"', "{x{y}z}", "12", '"a b"', "{}"])
+    defs = ["@string{%s = %s}" % (names[0], base), "@string{%s = %s}" % (names[1], names[0])]
+    if rng.random() < 0.5:
+        defs.append("@string{%s = %s}" % (names[2], names[1]))
+    refs = [rng.choice(names[:len(defs)]) for _ in range(rng.randint(1, 3))]
+    ent = "@a{k%d, %s}" % (rng.randint(0, 9), ", ".join("f%d = %s" % (i, r) for i, r in enumerate(refs)))
+    parts = defs + [ent]
+    if rng.random() < 0.3:
+        rng.shuffle(parts)
+    return rng.choice(["\n", " ", "\n\n"]).join(parts)
+
+
 def gen(tier, rng):
+    for _ in range(60 if tier == "quick" else 600):
+        yield {"t": _alias_doc(rng), "indent": rng.choice(INDENTS), "col": rng.choice(["auto", 0, 7, 20]),
+               "sep": rng.choice(SEPS), "tc": rng.random() < 0.5}
     n = 2500 if tier == "quick" else 40000
     made = 0
     while made < n:
@@ -131,30 +173,81 @@ def impl(case):
 _AT = re.compile(r"@\w*[ \t]*\{")
 
 
+def _balanced(t):
+    """brace-balanced, counting braces that are not preceded by a backslash (Bal of the grammar)"""
+    d = 0
+    for i, ch in enumerate(t):
+        if i and t[i - 1] == "\\":
+            continue
+        if ch == "{":
+            d += 1
+        elif ch == "}":
+            d -= 1
+            if d < 0:
+                return False
+    return d == 0
+
+
+def _value_ok(t):
+    """`t` is a Value of the dialect grammar (DESIGN section 5): bare text, brace groups `{Bal}` and quoted pieces
+    `"QBody"` (braces balance inside quotes, a quote inside braces is ordinary); no top-level ',' or '='"""
+    q, c, qc = False, 0, 0
+    for i, ch in enumerate(t):
+        if i and t[i - 1] == "\\":
+            continue
+        if ch == '"':
+            if c == 0 and qc == 0:
+                q = not q
+        elif ch == "{":
+            if q:
+                qc += 1
+            else:
+                c += 1
+        elif ch == "}":
+            if q:
+                if qc == 0:
+                    return False
+                qc -= 1
+            else:
+                if c == 0:
+                    return False
+                c -= 1
+        elif ch in ",=" and not q and c == 0:
+            return False
+    return not q and c == 0 and qc == 0
+
+
 def wf5(case, lib1):
     """the side conditions of the property's 'well-formed document' (DESIGN §6 C05): no failed block, keys
-    distinct, no stripped key / bare value / comment ending in a backslash, entry types that stay \\w when
-    lower-cased, no block-start sequence inside a value or comment, no adjacent free-text comments"""
+    distinct, no stripped key / value / comment ending in a backslash, entry types that stay \\w when
+    lower-cased, no block-start sequence inside a value or comment, no adjacent free-text comments.
+    Entry field values and @string values are written between braces, so it is the ENCLOSED text {v} that has to
+    be a Value (resp. brace-balanced): the content of `{A} # {B}` is `A} # {B` and is fine.  Preambles and explicit
+    comments are written as they are and must be balanced themselves.  (Lean: SideOK = ValueOK / StrValOK / TextOK.)"""
     from bibtexparser import model as M
     prev_impl = False
     for b in lib1.blocks:
         if isinstance(b, M.ParsingFailedBlock):
             return False
-        texts = []
+        texts, bal, values, svalues = [], [], [], []
         if isinstance(b, M.Entry):
             if not re.fullmatch(r"\w*", b.entry_type):
                 return False
-            texts = [b.key] + [f.key for f in b.fields] + [f.value for f in b.fields if isinstance(f.value, str)]
+            values = [f.value for f in b.fields if isinstance(f.value, str)]
+            texts = [b.key] + [f.key for f in b.fields] + values
+            bal = [b.key] + [f.key for f in b.fields]
             if any(c in b.key or any(c in f.key for f in b.fields) for c in '{}",=@\n'):
                 return False
         elif isinstance(b, M.String):
             texts = [b.key, b.value]
+            bal = [b.key]
+            svalues = [b.value]
             if any(c in b.key for c in '{}",=@\n'):
                 return False
         elif isinstance(b, M.Preamble):
-            texts = [b.value]
+            texts = bal = [b.value]
         elif isinstance(b, M.ExplicitComment):
-            texts = [b.comment]
+            texts = bal = [b.comment]
         elif isinstance(b, M.ImplicitComment):
             if prev_impl:
                 return False
@@ -163,19 +256,12 @@ def wf5(case, lib1):
         for t in texts:
             if t.endswith("\\") or _AT.search(t):
                 return False
-            if not isinstance(b, M.ImplicitComment):
-                d = 0
-                for i, ch in enumerate(t):
-                    if i and t[i - 1] == "\\":
-                        continue
-                    if ch == "{":
-                        d += 1
-                    elif ch == "}":
-                        d -= 1
-                        if d < 0:
-                            return False
-                if d != 0:
-                    return False
+        if not all(_balanced(t) for t in bal):
+            return False
+        if not all(_value_ok("{" + v + "}") for v in values):
+            return False
+        if not all(_balanced("{" + v + "}") for v in svalues):
+            return False
     return True
 
 
@@ -236,6 +322,7 @@ def extra_obligations(tier):
          not blank_word, "offending: %r" % blank_word[:5]),
         ("PrintOK.atWord: \\w does not match '@'", not w.match("@"), ""),
         ("PrintOK.rbWord: \\w does not match '}'", not w.match("}"), ""),
+        ("PrintOK.nlWord: \\w does not match a newline", not w.match("\n"), ""),
         ("PrintOK.spSpace/tabSpace/nlSpace: ' ', TAB, NL are isspace()", all(c.isspace() for c in " \t\n"), ""),
         ("PrintOK.lbSpace/rbSpace: '{' and '}' are not isspace()", not "{".isspace() and not "}".isspace(), ""),
         ("PrintOK.atLower: '@'.lower() == '@'", "@".lower() == "@", ""),
